@@ -38,15 +38,37 @@ type solveOpts struct {
 
 func (o *Obligation) script(seed int) string { return o.scriptR(seed, false) }
 
+// renderLine expands the solver-neutral array definitions.
+func renderLine(l string, lambda bool, relaxed bool) (string, bool) {
+	if !strings.HasPrefix(l, ";@defarr ") {
+		return l, true
+	}
+	f := strings.SplitN(l[len(";@defarr "):], " ", 3)
+	name, idx, body := f[0], f[1], f[2]
+	if lambda {
+		return "(assert (= " + name + " (lambda ((" + idx + " (_ BitVec 64))) " + body + ")))", true
+	}
+	if relaxed {
+		return "", false
+	}
+	return "(assert (forall ((" + idx + " (_ BitVec 64))) (! (= (select " + name + " " + idx + ") " + body + ") :pattern ((select " + name + " " + idx + ")))))", true
+}
+
 // scriptR: relaxed=true drops every assumption that contains a quantifier. Dropping assumptions
 // only weakens the context, so "unsat" of the relaxed query still proves the obligation.
-func (o *Obligation) scriptR(seed int, relaxed bool) string {
+func (o *Obligation) scriptR(seed int, relaxed bool) string { return o.scriptRL(seed, relaxed, false) }
+
+func (o *Obligation) scriptRL(seed int, relaxed bool, lambda bool) string {
 	var b bytes.Buffer
 	for i := 0; i < o.Prefix; i++ {
-		if (o.Cover || relaxed) && strings.HasPrefix(o.Script[i], "(assert") && (strings.Contains(o.Script[i], "(forall ") || strings.Contains(o.Script[i], "(exists ")) {
+		l, keep := renderLine(o.Script[i], lambda, relaxed || o.Cover)
+		if !keep {
+			continue
+		}
+		if (o.Cover || relaxed) && strings.HasPrefix(l, "(assert") && (strings.Contains(l, "(forall ") || strings.Contains(l, "(exists ")) {
 			continue // covers are decided modulo the quantified facts (relaxation)
 		}
-		b.WriteString(o.Script[i])
+		b.WriteString(l)
 		b.WriteByte('\n')
 	}
 	if o.Cover {
@@ -105,7 +127,7 @@ func discharge(o *Obligation, opt *solveOpts, idx int) {
 	ctx := context.Background()
 	hasQ := false
 	for i := 0; i < o.Prefix; i++ {
-		if strings.HasPrefix(o.Script[i], "(assert") && strings.Contains(o.Script[i], "(forall ") {
+		if (strings.HasPrefix(o.Script[i], "(assert") && strings.Contains(o.Script[i], "(forall ")) || strings.HasPrefix(o.Script[i], ";@defarr") {
 			hasQ = true
 			break
 		}
@@ -152,15 +174,37 @@ func discharge(o *Obligation, opt *solveOpts, idx int) {
 	rctx, cancel := context.WithCancel(ctx)
 	defer cancel()
 	ch := make(chan res, len(solvers))
-	for _, s := range solvers {
+	// a fourth configuration: z3-new with array definitions as lambda terms instead of quantifiers
+	racers := append([]solverCfg{}, solvers...)
+	lfile := ""
+	if hasQ {
+		for i := 0; i < o.Prefix; i++ {
+			if strings.HasPrefix(o.Script[i], ";@defarr") {
+				lfile = file + ".lambda.smt2"
+				break
+			}
+		}
+	}
+	if lfile != "" {
+		os.WriteFile(lfile, []byte(o.scriptRL(opt.seed, false, true)), 0o644)
+		if !opt.keepFiles {
+			defer os.Remove(lfile)
+		}
+		racers = append(racers, solverCfg{"z3-new/lambda", solvers[0].args})
+	}
+	for _, s := range racers {
 		s := s
+		f := file
+		if s.name == "z3-new/lambda" {
+			f = lfile
+		}
 		go func() {
-			v, out, _ := runSolver(rctx, s, file, opt.timeout)
+			v, out, _ := runSolver(rctx, s, f, opt.timeout)
 			ch <- res{v, out, s.name}
 		}()
 	}
 	var got []res
-	for range solvers {
+	for range racers {
 		r := <-ch
 		got = append(got, r)
 		if !opt.allAgree && (r.v == "sat" || r.v == "unsat") {
